@@ -285,7 +285,13 @@ def applyAction (c : Context) : Action → Context
   | .Drop => { c with rrl_action := some .Drop, send_response := false }
   | .Send => { c with rrl_action := some .Send }
 
-/-- the `qname_hash` computation (with the `unwrap` on the question) -/
+/-- wire form of `Name::root()` -/
+def ROOT_NAME : List UInt8 := [0]
+
+/-- the `qname_hash` computation: source of synthesis, else the question's QNAME, else the root
+    name (a NOERROR response without question exists: QDCOUNT = 0 request whose TSIG response does
+    not fit, RFC 8945 §5.3). Before commit 2232f31 the last case was `question.unwrap()`, a
+    panic; the extractor tells which of the two the source has. -/
 def qnameHashOf (rs : RandomState) (category : Category) (c : Context) : Out Empty UInt32 :=
   if category = .NoError then
     match c.source_of_synthesis with
@@ -293,10 +299,10 @@ def qnameHashOf (rs : RandomState) (category : Category) (c : Context) : Out Emp
     | none =>
       match c.question with
       | some q => .ok (rs.hashName (lowerName q))
-      | none => .panic
+      | none => if Gen.RRL_QNAME_FALLBACK_IS_ROOT then .ok (rs.hashName (lowerName ROOT_NAME)) else .panic
   else .ok 0
 
-/-- the key of a response (when the `unwrap` does not panic) -/
+/-- the key of a response -/
 def keyOf (rs : RandomState) (p : RrlParams) (c : Context) : Out Empty Key :=
   let category := Category.ofExtendedRcode c.extended_rcode
   match qnameHashOf rs category c with
